@@ -253,6 +253,27 @@ def shard_main(shard, nshards, tier):
                 viols.append(('text|wrong-text|%s' % (enc or 'default'), {'tree': seq + '/' + inner, 'expected': exp, 'got': got[:300]}))
         if len(samples) < 3 and ti % 211 == shard:
             samples.append('tree %s/%s x %d option vectors' % (seq, inner, len(use)))
+    # long text with a character outside the BMP at every offset round the 512-unit stream buffer (text, html and xml methods)
+    EMO = '\U0001F600'
+    for method in ('text', 'html', 'xml'):
+        for n in list(range(505, 517)) + list(range(1017, 1029)):
+            if (n % nshards) != shard:
+                continue
+            xsl = ('<xsl:stylesheet version="1.0" xmlns:xsl="%s"><xsl:output method="%s"/><xsl:template match="/"><o><xsl:value-of select="."/></o></xsl:template></xsl:stylesheet>' % (XSL, method))
+            body = 'a' * n + EMO + 'b'
+            try:
+                r = w.request('tr', xsl, '<r>' + body + '</r>')
+            except vlib.WorkerDied as wd:
+                viols.append(('%s|fatal-or-hang|non-BMP character at stream offset' % method, {'offset': n, 'how': str(wd.rc)}))
+                continue
+            counts['transformations'] += 1
+            counts['evaluations'] += 1
+            counts['nontrivial'] += 1
+            out = r[2].encode('utf-8', 'surrogateescape').decode('utf-8', 'replace')
+            ok = r[0] == '0' and ((method == 'text' and out == body) or (method == 'xml' and ('>' + body + '<') in out) or
+                                  (method == 'html' and (('>' + body + '<') in out or ('>' + 'a' * n + '&#128512;b<') in out)))
+            if not ok:
+                viols.append(('%s|wrong-output|non-BMP character at stream offset' % method, {'offset': n, 'rc': r[0], 'err': r[1][:200], 'output_tail': out[-60:]}))
     # html: one document, option vectors with <=2 deviations over the html-relevant dimensions
     if shard == 0:
         for vec in [v for v in vecs if all(d in ('indent', 'amount', 'encoding', 'omit', 'media') for d, _ in v)]:
